@@ -131,6 +131,8 @@ class Report:
                 if r.get("row"):
                     row = r["row"]
                     key = "%s/%s/%s/%s:%s:%s/%s" % (engine, r["universe"], r["real"], row["op"], row["a"], row["b"], f["what"])
+                if f["property"] != self.prop:
+                    key += " [%s]" % f["property"]
                 self.finding_or_violation(key, dict(f, universe=r["universe"], real=r["real"], case=r["case"], steps=r.get("steps")))
 
     def finding_or_violation(self, key, detail):
@@ -181,6 +183,8 @@ class Report:
             print("KNOWN-FINDING: property=%s %s [%s; %d case(s) met]" % (self.prop, kf["what"], kid, len(self.known.hit.get(kid, []))))
         if self.violations:
             shown = set()
+            with open(os.path.join(REPLAYS, "%s_all_keys.txt" % self.prop), "w") as fh:
+                fh.write("\n".join(k for k, _ in self.violations))
             for n, (key, detail) in enumerate(self.violations[:20]):
                 path = os.path.join(REPLAYS, "%s_%d.json" % (self.prop, n))
                 with open(path, "w") as fh:
